@@ -204,7 +204,7 @@ func Keywords(dispatcher string, keywords []string, floorName string) Rule {
 		})
 		_ = si
 		r.Count(floorName, nCalls)
-		r.Floor(floorName, 6)
+		r.Floor(floorName, 4)
 		rs := &readSummary{p: p, memo: map[string]map[int]bool{}, open: map[string]bool{}}
 		for _, kw := range keywords {
 			fl := flows[kw]
@@ -311,7 +311,7 @@ func NilPath(p *core.Prog, r *core.Report) {
 		}
 	}
 	r.Count("kind_independent_groups", n)
-	r.Floor("kind_independent_groups", 3)
+	r.Floor("kind_independent_groups", 2)
 }
 
 // Chain — the simple-schema dispatchers are siblings: same ordered groups, every group's result merged,
@@ -624,7 +624,7 @@ func appliesSource(p *core.Prog, r *core.Report, na *nilAn) {
 		})
 	}
 	r.Count("applies_dispatch_sites", nD)
-	r.Floor("applies_dispatch_sites", 4)
+	r.Floor("applies_dispatch_sites", 3)
 	// (2) own keywords
 	fallbackReads := map[string][]string{}
 	defer func() {
@@ -852,7 +852,7 @@ func KeywordGuard(p *core.Prog, r *core.Report) {
 		})
 	}
 	r.Count("keyword_helper_calls", n)
-	r.Floor("keyword_helper_calls", 20)
+	r.Floor("keyword_helper_calls", 15)
 }
 
 // EnumConvert — the enum group compares the instance, converted to the type of the member at hand, with
@@ -1254,5 +1254,5 @@ func HelperField(p *core.Prog, r *core.Report) {
 		})
 	}
 	r.Count("helper_field_sites", n)
-	r.Floor("helper_field_sites", 12)
+	r.Floor("helper_field_sites", 9)
 }
